@@ -20,6 +20,26 @@ struct Shared {
 
 static PROGRESS: std::sync::atomic::AtomicUsize = std::sync::atomic::AtomicUsize::new(0);
 
+/// Publish a free-form note (at most 3000 bytes) for the running case; the parent can read the
+/// note of a case whose child died with [`crash_note`].
+pub fn set_note(b: &[u8]) {
+    let p = PROGRESS.load(std::sync::atomic::Ordering::Relaxed) as *mut u8;
+    if !p.is_null() {
+        let n = b.len().min(3000);
+        unsafe {
+            std::ptr::write_volatile(p.add(16) as *mut u32, n as u32);
+            std::ptr::copy_nonoverlapping(b.as_ptr(), p.add(24), n);
+        }
+    }
+}
+
+static NOTES: std::sync::Mutex<Vec<(usize, Vec<u8>)>> = std::sync::Mutex::new(Vec::new());
+
+/// The note the child had published when it died while running case `i` of the last `run`.
+pub fn crash_note(i: usize) -> Option<Vec<u8>> {
+    NOTES.lock().unwrap().iter().find(|x| x.0 == i).map(|x| x.1.clone())
+}
+
 /// Publish a progress marker for the running case (survives the death of the child).
 pub fn set_progress(v: u64) {
     let p = PROGRESS.load(std::sync::atomic::Ordering::Relaxed) as *mut u64;
@@ -53,6 +73,7 @@ pub fn quiet_panics() {
 /// single-threaded.  `deadline_ms` bounds the time without any completed case.
 pub fn run<F: Fn(usize) -> (Vec<u8>, bool)>(n: usize, per_child: usize, deadline_ms: i32, f: F) -> Vec<Outcome> {
     let mut out: Vec<Outcome> = Vec::with_capacity(n);
+    NOTES.lock().unwrap().clear();
     let sh = shared_counter();
     PROGRESS.store(unsafe { sh.current.add(1) } as usize, std::sync::atomic::Ordering::Relaxed);
     let mut start = 0usize;
@@ -70,6 +91,7 @@ pub fn run<F: Fn(usize) -> (Vec<u8>, bool)>(n: usize, per_child: usize, deadline
             for i in start..end {
                 unsafe { std::ptr::write_volatile(sh.current, i as u64) };
                 set_progress(0);
+                set_note(b"");
                 let r = std::panic::catch_unwind(std::panic::AssertUnwindSafe(|| f(i)));
                 let (bytes, stop) = match r {
                     Ok(b) => b,
@@ -136,6 +158,13 @@ pub fn run<F: Fn(usize) -> (Vec<u8>, bool)>(n: usize, per_child: usize, deadline
         if next < end && !clean {
             // the child stopped inside case `next`
             let prog = unsafe { std::ptr::read_volatile(sh.current.add(1)) };
+            unsafe {
+                let base = sh.current.add(1) as *const u8;
+                let n = (std::ptr::read_volatile(base.add(16) as *const u32) as usize).min(3000);
+                let mut note = vec![0u8; n];
+                std::ptr::copy_nonoverlapping(base.add(24), note.as_mut_ptr(), n);
+                NOTES.lock().unwrap().push((next, note));
+            }
             let o = if timed_out {
                 Outcome::Timeout(prog)
             } else if libc::WIFSIGNALED(status) {
